@@ -685,9 +685,114 @@ static std::string run_validate(const std::vector<std::string>& t) {
 	}
 }
 
+// ------------------------------------------------------------------ request histories on the low-level scopes (jx.hist, C03)
+//   jx.hist <json|xml> <mem|stream> <pol> <doc hex> <program>
+//   program = R{reqs} (root.OpenObjectScope) | S{reqs} (root.OpenArrayScope); reqs separated by ','
+//   object scope: g<t>=<hexkey>  SerializeValue(key, v)      t<t>=<hexkey>  OpenAttributeScope()->SerializeValue(key, v)
+//                 o=<hexkey>{reqs} OpenObjectScope(key)       a=<hexkey>{reqs} OpenArrayScope(key)      k  VisitKeys
+//   array scope:  G<t>  SerializeValue(v)   O{reqs}   A{reqs}   e  IsEnd()
+//   <t> = b bool | i int32 | l int64 | u uint64 | d double | s string | n nullptr
+//   answers, ',' separated: L<value> loaded | N not loaded and target unchanged (N!<value> if it changed) | O1 / O0 scope opened or not
+//                           K[hex.hex..] | E1 / E0 | B not available in this scope | EXC:<code> ends the history
+struct HP {
+	const std::string& s; size_t pos = 0;
+	char peek() const { return pos < s.size() ? s[pos] : '\0'; }
+	char take() { return pos < s.size() ? s[pos++] : '\0'; }
+	std::string key() {
+		if (take() != '=') throw Syntax{"="};
+		size_t st = pos;
+		while ((peek() >= '0' && peek() <= '9') || (peek() >= 'a' && peek() <= 'f')) ++pos;
+		if ((pos - st) % 2) throw Syntax{"hexkey"};
+		return pos == st ? std::string() : vh::parse_hex(s.substr(st, pos - st));
+	}
+	void skip_block() { if (take() != '{') throw Syntax{"{"}; int d = 1; while (d > 0) { char c = take(); if (c == '\0') throw Syntax{"}"}; if (c == '{') ++d; if (c == '}') --d; } }
+};
+static void add(std::string& out, const std::string& a) { if (!out.empty()) out += ","; out += a; }
+
+template <class S, class TGet> static void hist_get(char t, TGet get, std::string& out) {
+	auto fin = [&](bool ok, auto& v, const auto& sentinel) { add(out, ok ? "L" + dump(v) : (v == sentinel ? std::string("N") : "N!" + dump(v))); };
+	switch (t) {
+	case 'b': { bool v = true; const bool s0 = v; fin(get(v), v, s0); break; }
+	case 'i': { int32_t v = 7777; const int32_t s0 = v; fin(get(v), v, s0); break; }
+	case 'l': { int64_t v = 7777; const int64_t s0 = v; fin(get(v), v, s0); break; }
+	case 'u': { uint64_t v = 7777; const uint64_t s0 = v; fin(get(v), v, s0); break; }
+	case 'd': { double v = 7777.5; const double s0 = v; fin(get(v), v, s0); break; }
+	case 'n': { std::nullptr_t v = nullptr; add(out, get(v) ? "Ln" : "N"); break; }
+	case 's': { typename S::string_view_type v = "~"; const bool ok = get(v); const std::string sv(v); add(out, ok ? "L" + dump(sv) : (sv == "~" ? std::string("N") : "N!" + dump(sv))); break; }
+	default: throw Syntax{"type"};
+	}
+}
+
+template <class TArr> static void hist_arr(TArr& sc, HP& p, std::string& out);
+template <class TObj> static void hist_obj(TObj& sc, HP& p, std::string& out) {
+	if (p.take() != '{') throw Syntax{"{"};
+	while (p.peek() != '}') {
+		const char c = p.take();
+		if (c == 'g') { const char t = p.take(); const std::string k = p.key(); hist_get<TObj>(t, [&](auto& v) { return sc.SerializeValue(k, v); }, out); }
+		else if (c == 't') {
+			const char t = p.take(); const std::string k = p.key();
+			if constexpr (can_serialize_attribute_v<TObj>) { auto as = sc.OpenAttributeScope(); if (as) hist_get<TObj>(t, [&](auto& v) { return as->SerializeValue(k, v); }, out); else add(out, "B"); }
+			else add(out, "B");
+		}
+		else if (c == 'o') { const std::string k = p.key(); auto sub = sc.OpenObjectScope(k, 0); if (sub) { add(out, "O1"); hist_obj(*sub, p, out); } else { add(out, "O0"); p.skip_block(); } }
+		else if (c == 'a') { const std::string k = p.key(); auto sub = sc.OpenArrayScope(k, 0); if (sub) { add(out, "O1"); hist_arr(*sub, p, out); } else { add(out, "O0"); p.skip_block(); } }
+		else if (c == 'k') { std::string ks; bool first = true; sc.VisitKeys([&](auto&& name) { if (!first) ks += "."; first = false; ks += hexs(std::string(name)); }); add(out, "K[" + ks + "]"); }
+		else throw Syntax{"request"};
+		if (p.peek() == ',') p.take();
+	}
+	p.take();
+}
+template <class TArr> static void hist_arr(TArr& sc, HP& p, std::string& out) {
+	if (p.take() != '{') throw Syntax{"{"};
+	while (p.peek() != '}') {
+		const char c = p.take();
+		if (c == 'G') { const char t = p.take(); hist_get<TArr>(t, [&](auto& v) { return sc.SerializeValue(v); }, out); }
+		else if (c == 'O') { auto sub = sc.OpenObjectScope(0); if (sub) { add(out, "O1"); hist_obj(*sub, p, out); } else { add(out, "O0"); p.skip_block(); } }
+		else if (c == 'A') { auto sub = sc.OpenArrayScope(0); if (sub) { add(out, "O1"); hist_arr(*sub, p, out); } else { add(out, "O0"); p.skip_block(); } }
+		else if (c == 'e') add(out, sc.IsEnd() ? "E1" : "E0");
+		else throw Syntax{"request"};
+		if (p.peek() == ',') p.take();
+	}
+	p.take();
+}
+
+template <class TArchive>
+static std::string run_hist(const std::vector<std::string>& t) {
+	const bool stream = t[2] == "stream";
+	const std::string& pol = t[3];
+	const std::string bytes = vh::parse_hex(t[4]);
+	std::string out;
+	const std::string tail = guarded([&]() -> std::string {
+		SerializationOptions o;
+		o.mismatchedTypesPolicy = pol.size() > 0 && pol[0] == 'S' ? MismatchedTypesPolicy::Skip : MismatchedTypesPolicy::ThrowError;
+		o.overflowNumberPolicy = pol.size() > 1 && pol[1] == 'S' ? OverflowNumberPolicy::Skip : OverflowNumberPolicy::ThrowError;
+		SerializationContext context(o);
+		HP p{t[5]};
+		const char root = p.take();
+		auto go = [&](auto& archive) {
+			if (root == 'R') { auto sc = archive.OpenObjectScope(0); if (sc) { add(out, "O1"); hist_obj(*sc, p, out); } else add(out, "O0"); }
+			else if (root == 'S') { auto sc = archive.OpenArrayScope(0); if (sc) { add(out, "O1"); hist_arr(*sc, p, out); } else add(out, "O0"); }
+			else throw Syntax{"root"};
+		};
+		if (stream) { std::istringstream is(bytes, std::ios::in | std::ios::binary); typename TArchive::input_archive_type archive(static_cast<std::istream&>(is), context); go(archive); }
+		else { typename TArchive::input_archive_type archive(bytes, context); go(archive); }
+		return "";
+	});
+	if (!tail.empty()) add(out, tail);
+	return out.empty() ? "-" : out;
+}
+
 static std::string run_case(const std::string& line) {
 	auto t = vh::split(line);
 	if (t.size() < 6) return "BAD-CASE";
+	if (t[0] == "jx.hist") {
+		try {
+			if (t[1] == "json") return run_hist<JsonArchive>(t);
+			if (t[1] == "xml") return run_hist<XmlArchive>(t);
+			return "BAD-ARCH";
+		}
+		catch (const Syntax& e) { return std::string("BAD-SYNTAX ") + e.what; }
+	}
 	if (t[0] == "jx.val") {
 		if (t[1] == "json") return run_validate<JsonArchive>(t);
 		if (t[1] == "xml") return run_validate<XmlArchive>(t);
